@@ -109,6 +109,13 @@ def check_split(seed, tier, acc):
         exts = ['.i'] + [r.choice(['.i', '.i', '.h']) for _ in files[1:]]
         paths = [d.write('src/%s%s' % (s, e), c) for s, e, c in zip(stems, exts, files)]
         acc.count('additional_files_dot_h', sum(1 for e in exts if e == '.h'))
+        # an additional file may be a symbolic link to a file of another name: the part is named after the link
+        for k in range(1, len(paths)):
+            if r.random() < 0.25:
+                real = d.write('interfaces/%s_v2%s' % (stems[k], exts[k]), files[k])
+                os.remove(paths[k])
+                os.symlink(real, paths[k])
+                acc.count('additional_files_symlinked')
         opts = options(r, mod)
         top = [''] + opts['top']
         ign = opts['ignore'] or []
